@@ -86,8 +86,63 @@ func stats(in, outp string) {
 				cnt["targetRef.legacy"]++
 			}
 			cnt["action."+p.Spec.GetAction().String()]++
+			if isDryRun(p) {
+				cnt["dry-run."+p.Spec.GetAction().String()]++
+			}
+			if p.Spec.GetAction().String() == "CUSTOM" {
+				n, class := p.Spec.GetProvider().GetName(), "undefined"
+				for _, k := range s.providers {
+					if k == n {
+						class = "defined-grpc"
+					} else if k == "http:"+n {
+						class = "defined-http"
+					}
+				}
+				cnt["provider."+class]++
+			}
+			// clause 2: what the statement does with each rule of an applying policy on an HTTP and on a TCP chain
+			if s.applies(p) {
+				for _, rule := range p.Spec.Rules {
+					if rule == nil {
+						continue
+					}
+					for _, tcp := range []bool{false, true} {
+						specTCP = tcp
+						chain := map[bool]string{false: "http", true: "tcp"}[tcp]
+						switch {
+						case ruleExpressible(rule):
+							cnt["clause2."+chain+".expressible"]++
+						case p.Spec.GetAction().String() == "ALLOW":
+							cnt["clause2."+chain+".allow-rule-dropped"]++
+						default:
+							cnt["clause2."+chain+".rule-on-remaining-conditions"]++
+						}
+					}
+					specTCP = false
+				}
+			}
+		}
+		if len(s.providers) > 0 && s.multi {
+			cnt["flag.multiple-custom-providers"]++
 		}
 	}
+	attrKey := func(k string) string {
+		switch {
+		case strings.HasPrefix(k, "request.headers["):
+			return "request.headers"
+		case strings.HasPrefix(k, "request.auth.claims"):
+			return "request.auth.claims"
+		case strings.HasPrefix(k, "experimental.envoy.filters.http."):
+			return "experimental.envoy.filters.http"
+		case strings.HasPrefix(k, "experimental.envoy.filters.network."):
+			return "experimental.envoy.filters.network"
+		}
+		return k
+	}
+	fieldName := map[string]string{"pr": "principals", "npr": "notPrincipals", "rp": "requestPrincipals", "nrp": "notRequestPrincipals",
+		"ns": "namespaces", "nns": "notNamespaces", "ip": "ipBlocks", "nip": "notIpBlocks", "rip": "remoteIpBlocks", "nrip": "notRemoteIpBlocks",
+		"sa": "serviceAccounts", "nsa": "notServiceAccounts", "td": "trustDomains", "ntd": "notTrustDomains",
+		"h": "hosts", "nh": "notHosts", "p": "ports", "np": "notPorts", "m": "methods", "nm": "notMethods", "pa": "paths", "npa": "notPaths"}
 	for _, f := range wire.ReadLines(in) {
 		switch f[0] {
 		case "case":
@@ -115,13 +170,27 @@ func stats(in, outp string) {
 		case "from", "to":
 			for _, t := range f[1:] {
 				k, v := kv(t)
-				for _, x := range wire.DecList(v) {
+				if n, ok := fieldName[k]; ok {
+					cnt["field."+f[0]+"."+n]++
+				}
+				l := wire.DecList(v)
+				if len(l) > 3 {
+					cnt["values.more-than-3"]++
+				}
+				for _, x := range l {
 					cnt["value."+valueForm(k, x)]++
 				}
 			}
 		case "when":
 			if len(f) >= 4 {
 				key := wire.Dec(f[1])
+				cnt["when."+attrKey(key)]++
+				if f[2] != "-" {
+					cnt["when.with-values"]++
+				}
+				if f[3] != "-" {
+					cnt["when.with-notValues"]++
+				}
 				for _, x := range append(wire.DecList(f[2]), wire.DecList(f[3])...) {
 					cnt["value."+valueForm(key, x)]++
 				}
